@@ -285,8 +285,10 @@ func (cx *Ctx) c01AfterAbort(r *rng) map[string]any {
 	gc := genCfg{allowRandomGreedy: true, nastyPct: 5, multiPct: 25, bigPct: 0}
 	var jobs []*spec.Job
 	for i := 0; i < n; i++ {
-		es, _ := genGraph(r, gc)
+		es, fam0 := genGraph(r, gc)
 		ab := spec.Call{Edges: es, Opts: genOptions(r, es, gc)}
+		// one budget per job: the largest any of its calls is entitled to (calibrated per family / positioner / size)
+		b := budgetForFam(fam0, ab.Opts.P4 == "ns", len(es), nodeCount(es))
 		switch r.intn(4) {
 		case 0:
 			ab.Edges = [][]string{}
@@ -305,19 +307,22 @@ func (cx *Ctx) c01AfterAbort(r *rng) map[string]any {
 		}
 		calls := []spec.Call{ab}
 		for k := r.between(1, 2); k > 0; k-- {
-			e2, _ := genGraph(r, gc)
+			e2, fam2 := genGraph(r, gc)
 			v := spec.Call{Edges: e2, Opts: genOptions(r, e2, gc)}
 			if r.chance(50) {
 				v.Opts = ab.Opts // the same algorithms meet what the aborted call left behind
 				v.Opts.Sizes = nil
+				if v.Opts.P4 == "ns" && len(e2)+nodeCount(e2) >= 45 {
+					v.Opts.P4 = ""
+				}
 			}
 			if v.Opts.P5 == "splines" { // known findings live there; they are judged by the main batch
 				v.Opts.P5 = "ortho"
 			}
 			calls = append(calls, v)
+			b2 := budgetForFam(fam2, v.Opts.P4 == "ns", len(e2), nodeCount(e2))
+			b.Ticks, b.Frame, b.Depth = max(b.Ticks, b2.Ticks), max(b.Frame, b2.Frame), max(b.Depth, b2.Depth)
 		}
-		b := budgetFor(40, 40)
-		b.Ticks = 400_000_000
 		jobs = append(jobs, &spec.Job{ID: i, Kind: "history", Calls: calls, Res: []spec.Resolution{{Adv: "identity"}}, Budgets: b})
 	}
 	res := cx.simFresh.Run(jobs, nil)
